@@ -37,11 +37,14 @@ ASSUMPTIONS = ["dyadic steps (1, 2, 250, 1/2, 1/4, 1/8): coordinates must equal 
                "counts, brackets and cells are judged exactly (order of doubles by bit pattern)",
                "np.arange accumulates i*ulp(start): random ranges on 1/44100 and 1/22050 keep |start| < 1 and < 300 points so that this stays "
                "below the tolerance; the enumerated universe (|start| <= 3.5, <= 12 points) is unrestricted",
+               "coordinate dtypes float64, int64, int32 (integer start and step) and float32; on a float32 axis the queries are float32 values "
+               "(a float64 query within float32 rounding of a coordinate is looked up by pandas as that coordinate: reported, not generated)",
                "a count is pinned only when (stop - start)/step is nominally whole; otherwise floor or ceil is accepted",
                "the class of the exception raised outside the range is not pinned by the statement (any exception counts as 'raises')"]
 
 NAMES = ["x", "y", "z"]
 SET_STARTS = [0.0, 3.5, -2.0]
+SET_STARTS_INT = [-2.0, -5.0, -3.0]          # integer-dtype axes: negative coordinates (truncation toward zero differs from floor)
 
 
 # ----------------------------------------------------------------------------- encoders (no verdicts)
@@ -58,30 +61,45 @@ def step_of(case) -> float:
     return float(Fraction(case["s"][0], case["s"][1]))
 
 
-def make_axis(name, a4, s, n):
-    """The regular axis (a4/4, s, n) as the library builds it (whole-number case of create_range_dim)."""
+DTYPES = {"f8": np.float64, "f4": np.float32, "i8": np.int64, "i4": np.int32}
+
+
+def make_axis(name, a4, s, n, dt="f8"):
+    """The regular axis (a4/4, s, n) with coordinate dtype dt.  float64: as the library builds it (whole-number case of
+    create_range_dim); other dtypes: a numpy array of that dtype (np.arange for integers) with the step attribute."""
     a = Fraction(a4, 4)
     fs = Fraction(s[0], s[1])
-    return arrays.create_range_dim(name, float(a), float(a + n * fs), float(fs))
+    if dt == "f8":
+        return arrays.create_range_dim(name, float(a), float(a + n * fs), float(fs))
+    if dt in ("i8", "i4"):
+        if a.denominator != 1 or fs.denominator != 1:
+            raise ValueError("an integer axis needs an integer start and step")
+        data = np.arange(int(a), int(a + n * fs), int(fs), dtype=DTYPES[dt])
+    else:
+        data = np.array([float(a + i * fs) for i in range(n)], dtype=DTYPES[dt])
+    return xr.Variable(name, data, attrs={"step": float(fs)})
 
 
 def pos_to_value(coords, step, p):
     """Query double for model position p (8 ticks per step), formed from the coordinates AS READ BACK."""
     n = len(coords)
     k, r = divmod(p, 8)
+    # arithmetic in the precision of the axis (float32 axis: float32 neighbours / midpoints; integer axis: float64)
+    T = coords.dtype.type if coords.dtype.kind == "f" else np.float64
+    c = coords.astype(T)
     if r == 0 and 0 <= k < n:
-        return float(coords[k])
+        return float(c[k])
     if r == 1 and 0 <= k < n:
-        return float(np.nextafter(coords[k], np.inf))
+        return float(np.nextafter(c[k], T(np.inf)))
     if r == 7 and 0 <= k + 1 < n:
-        return float(np.nextafter(coords[k + 1], -np.inf))
+        return float(np.nextafter(c[k + 1], T(-np.inf)))
     if r == 4:
         if 0 <= k < n - 1:
-            return float((coords[k] + coords[k + 1]) / 2)
+            return float((c[k] + c[k + 1]) / T(2))
         if k == -1:
-            return float(coords[0] - step / 2)
+            return float(c[0] - T(step) / T(2))
         if k == n - 1:
-            return float(coords[-1] + step / 2)
+            return float(c[-1] + T(step) / T(2))
     raise ValueError(f"position {p} not expressible on an axis of {n} points")
 
 
@@ -124,7 +142,7 @@ def _range(case):
 
 def _index(case):
     n = case["n"]
-    v = make_axis("x", case["a4"], case["s"], n)
+    v = make_axis("x", case["a4"], case["s"], n, case.get("dt", "f8"))
     arr = xr.DataArray(np.zeros(v.sizes["x"]), dims=["x"], coords={"x": v})
     coords = arr.coords["x"].data
     q = pos_to_value(coords, step_of(case), case["p"])
@@ -136,7 +154,7 @@ def _index(case):
             raise TypeError(f"non-integer index {res!r}")
     except (KeyError, ValueError, IndexError, LookupError, ArithmeticError) as ex:
         out = {"k": "raise", "v": -1, "exc": type(ex).__name__}
-    out.update(cb=[bits(x) for x in coords], qb=bits(q))
+    out.update(cb=[bits(float(x)) for x in coords], qb=bits(q))
     return out
 
 
@@ -144,12 +162,23 @@ def _set(case):
     sh = case["sh"]
     s = case["s"]
     d = len(sh)
-    a4s = [int(x * 4) for x in SET_STARTS]
-    axes = {NAMES[j]: make_axis(NAMES[j], a4s[j], s, sh[j]) for j in range(d)}
+    dt = case.get("dt", "f8")
+    ident = list(range(1, d + 1))
+    reg, tr, nc = case.get("reg", ident), case.get("tr", ident), case.get("nc", [])
+    names = NAMES[:d]
+    a4s = [int(x * 4) for x in (SET_STARTS_INT if dt in ("i8", "i4") else SET_STARTS)]
+    axes = {names[j]: make_axis(names[j], a4s[j], s, sh[j], dt) for j in range(d)}
     total = int(np.prod(sh))
-    data = np.arange(1, total + 1, dtype=float).reshape(sh)
-    arr = xr.DataArray(data.copy(), dims=NAMES[:d], coords=axes)
-    coords = [arr.coords[NAMES[j]].data for j in range(d)]
+    data = np.arange(1, total + 1, dtype=float).reshape(sh)          # the array as set_value_at_pos will see it (dims = names)
+    # layout: built with its dims in the order tr, coordinates registered in the order reg (without dimension nc), then transposed
+    base = np.ascontiguousarray(data.transpose([k - 1 for k in tr]))
+    coords_reg = {names[k - 1]: axes[names[k - 1]] for k in reg if not (nc and nc[0] == k)}
+    arr = xr.DataArray(base, dims=[names[k - 1] for k in tr], coords=coords_reg)
+    if tr != ident:
+        arr = arr.transpose(*names)
+    if tuple(arr.dims) != tuple(names) or tuple(arr.shape) != tuple(sh):
+        raise AssertionError("binder built the wrong layout")
+    coords = [np.asarray(arr[names[j]].data) for j in range(d)]
     query, qb = {}, []
     for j in range(d):
         if case["q"][j]:
@@ -176,7 +205,7 @@ def _set(case):
     except Exception as ex:
         raised = type(ex).__name__
         after = [_int(x) for x in np.asarray(arr.data).ravel()]
-    return {"axes": [[bits(x) for x in c] for c in coords], "qb": qb, "before": [_int(x) for x in data.ravel()],
+    return {"axes": [[bits(float(x)) for x in c] for c in coords], "qb": qb, "before": [_int(x) for x in data.ravel()],
             "after": after, "value": vflat, "raised": raised}
 
 
@@ -217,7 +246,13 @@ def random_cases(rng, tier):
         n = rng.randrange(1, 200)
         j = rng.randrange(0, n)
         p = rng.choice([8 * j, 8 * j + 1, 8 * j - 1, 8 * j + 4 if j < n - 1 else 8 * j, -4, -1, 8 * (n - 1) + 1, 8 * (n - 1) + 4, 8 * (n - 1)])
-        yield {"kind": "index", "s": s, "a4": rng.randrange(-32, 33), "n": n, "p": p, "re": rng.random() < 0.5}
+        a4 = rng.randrange(-32, 33)
+        dt = "f8"
+        if s[1] == 1 and rng.random() < 0.5:
+            a4, dt = 4 * (rng.randrange(-8, 9) - (n * s[0] // 2 if rng.random() < 0.5 else 0)), rng.choice(["i8", "i4"])
+        elif rng.random() < 0.15:
+            dt = "f4"
+        yield {"kind": "index", "s": s, "a4": a4, "dt": dt, "n": n, "p": p, "re": rng.random() < 0.5}
     for _ in range(100 * k):
         d = rng.randrange(1, 4)
         sh = [rng.randrange(1, 4) for _ in range(d)]
@@ -228,8 +263,13 @@ def random_cases(rng, tier):
         if not any(q):
             q[0] = [0]
         vm = "array" if (not all(q) and rng.random() < 0.6) else "scalar"
-        yield {"kind": "set", "s": rng.choice(UNITS[:10]), "sh": sh, "q": q, "vm": vm, "rev": rng.random() < 0.5,
-               "aslist": rng.random() < 0.3}
+        perm = lambda: rng.sample(range(1, d + 1), d)
+        free = [j + 1 for j in range(d) if not q[j]]
+        su = rng.choice(UNITS[:10])
+        yield {"kind": "set", "s": su, "dt": rng.choice(["i8", "i4"]) if su[1] == 1 and rng.random() < 0.5 else "f8",
+               "sh": sh, "q": q, "vm": vm, "reg": perm(), "tr": perm(),
+               "nc": [rng.choice(free)] if free and rng.random() < 0.3 else [],
+               "rev": rng.random() < 0.5, "aslist": rng.random() < 0.3}
 
 
 def nontrivial(o):
